@@ -253,8 +253,8 @@ def jobs(tier):
     # one job; a sample of cases (first / middle / last position, smallest / largest counts), one case per job
     T16 = {"split": [(0, 0, 0), (30, 0, 0), (30, 30, 0), (30, 15, 0), (15, 7, 0)],
            "unsplit": [(1, 0, 0), (31, 0, 0), (31, 30, 0), (31, 15, 0)],
-           "rotdown": [(0, 0, 16), (0, 0, 31), (0, 30, 16), (0, 30, 31), (0, 15, 20)],
-           "rotup": [(0, 0, 16), (0, 0, 31), (0, 30, 16), (0, 30, 31), (0, 15, 20)]}
+           "rotdown": [(0, 0, 31), (0, 0, 16), (0, 30, 16), (0, 30, 31), (0, 15, 20)],
+           "rotup": [(0, 0, 31), (0, 0, 16), (0, 30, 16), (0, 30, 31), (0, 15, 20)]}
     for nm, fn in STEPS:
         for (cn, ci, cz) in (T16[nm] if thorough else T16[nm][1:3]):
             J("btree.step.%s.t16.n%d_i%d_zn%d" % (nm, cn, ci, cz), BS, "h_bt_" + nm, [fn], SIN, cls="B", native=True, checks=BCHK,
